@@ -78,6 +78,16 @@ pub fn check_fi<T: Item>(ctx: &mut Ctx, sk: &FrequentItemsSketch<T>, model: &FiM
     if sk.total_weight() != model.total {
         ctx.violation("total_weight != exact stream weight", format!("{}: {} want {}", tag, sk.total_weight(), model.total));
     }
+    if model.sizes.len() == 1 {
+        // documented: capacity = 0.75 * max_map_size, epsilon = 3.5 / max_map_size (the size is at least 8)
+        let size = (*model.sizes.iter().next().unwrap()).max(8);
+        if sk.maximum_map_capacity() != size * 3 / 4 || !rt::rel_close(sk.epsilon(), 3.5 / size as f64, 1e-12) {
+            ctx.violation(
+                "maximum_map_capacity / epsilon do not follow from the configured map size",
+                format!("{}: capacity {} epsilon {} for size {}", tag, sk.maximum_map_capacity(), sk.epsilon(), size),
+            );
+        }
+    }
     if sk.num_active_items() > sk.maximum_map_capacity() {
         ctx.violation(
             "num_active_items > maximum_map_capacity",
@@ -227,6 +237,16 @@ fn gen_stream(rng: &mut Rng, shape: u64, n: usize, domain: u64) -> Vec<(u64, u64
     out
 }
 
+/// lg of the configured maximum map size: any power of two is valid; sizes below 8 (a fifth of the draws) are
+/// raised to 8 by the library
+fn pick_lg_size(rng: &mut Rng) -> u64 {
+    if rng.chance(0.2) {
+        rng.range(0, 2)
+    } else {
+        rng.range(3, 11)
+    }
+}
+
 fn run_typed<T: Item>(ctx: &mut Ctx, case: &Json) {
     let mut rng = Rng::new(case.u64("seed").unwrap_or(0));
     let n_sketches = case.u64("n_sketches").unwrap_or(1) as usize;
@@ -234,12 +254,12 @@ fn run_typed<T: Item>(ctx: &mut Ctx, case: &Json) {
     let salt = rng.next_u64();
     let items: Vec<T> = (0..domain).map(|i| T::make(i, salt)).collect();
     let same_size = rng.chance(0.6);
-    let size0 = 1usize << rng.range(3, 11);
+    let size0 = 1usize << pick_lg_size(&mut rng);
     let mut sketches: Vec<(FrequentItemsSketch<T>, FiModel)> = vec![];
     let mut fp = Fp::new();
     let mut descr: Vec<String> = vec![];
     for si in 0..n_sketches {
-        let size = if same_size { size0 } else { 1usize << rng.range(3, 11) };
+        let size = if same_size { size0 } else { 1usize << pick_lg_size(&mut rng) };
         let shape = case.u64("shape").unwrap_or_else(|| rng.below(6));
         let shape = if si == 0 { shape } else { rng.below(6) };
         let n = rng.usize(0, case.u64("max_n").unwrap_or(2000) as usize);
